@@ -167,11 +167,12 @@ Definition run_finalise (l : list N) : list N :=
   | _ => [9]
   end.
 
-(* [umask; type; mode; rdev; no_clobber; exists] -> [ok; nactions; type; mode; rdev] *)
+(* [umask; type; mode; rdev; no_clobber; exists; (same file)] -> [ok; nactions; type; mode; rdev] *)
 Definition run_node (l : list N) : list N :=
   match l with
-  | um :: ty :: mo :: rd :: nc :: ex :: _ =>
-      match special_worker (negb (nc =? 0)) (negb (ex =? 0)) um (mkNode ty mo rd) with
+  | um :: ty :: mo :: rd :: nc :: ex :: rest =>
+      let same := match rest with s :: _ => negb (s =? 0) | [] => false end in
+      match special_worker (negb (nc =? 0)) (negb (ex =? 0)) same um (mkNode ty mo rd) with
       | None => [0]
       | Some acts =>
           let n := copy_node um (mkNode ty mo rd) in
